@@ -278,6 +278,25 @@ func OracleC11(r *Run) []Problem {
 						}
 					}
 				}
+				// every chunk *received from the shell* has a record: a stream
+				// that ended by itself while attached was read to its end, so
+				// its records add up to everything its reader returned
+				if d == "output" && ai.OwnEnd && ended {
+					var given []byte
+					for _, e := range r.Trace {
+						if e.Kind == EvRead && e.Att == n {
+							given = append(given, e.Data...)
+						}
+					}
+					if logged := strings.Join(io, ""); logged != string(given) {
+						k := 0
+						for k < len(logged) && k < len(given) && logged[k] == given[k] {
+							k++
+						}
+						add("received-output-not-logged", "output a%d ended by itself while attached after its reader had returned %d bytes, but the Shell I/O records hold %d (first difference at %d: sent %q)",
+							n, len(given), len(logged), k, clipData(string(given[k:])))
+					}
+				}
 				if strings.Join(io, "\x00|") != strings.Join(del, "\x00|") || len(io) != len(del) {
 					k := 0
 					for k < len(io) && k < len(del) && io[k] == del[k] {
